@@ -46,14 +46,19 @@ UNARY = {
 PLAIN = ['add', 'sub', 'mul', 'div', 'pow']
 
 
+def _cls(e):
+    """class name; nodes of pymbolic's own classes (what Python operators on Loki symbols build) are marked"""
+    return ('py' if type(e).__module__.startswith('pymbolic') else '') + type(e).__name__
+
+
 def show(e):
     """Structural rendering of a tree (independent of any Loki stringifier)."""
     if isinstance(e, (pmbl.Sum, pmbl.Product, pmbl.LogicalAnd, pmbl.LogicalOr)):
-        return type(e).__name__ + '(' + ','.join(show(c) for c in e.children) + ')'
+        return _cls(e) + '(' + ','.join(show(c) for c in e.children) + ')'
     if isinstance(e, pmbl.Quotient):
-        return f'{type(e).__name__}({show(e.numerator)},{show(e.denominator)})'
+        return f'{_cls(e)}({show(e.numerator)},{show(e.denominator)})'
     if isinstance(e, pmbl.Power):
-        return f'{type(e).__name__}({show(e.base)},{show(e.exponent)})'
+        return f'{_cls(e)}({show(e.base)},{show(e.exponent)})'
     if isinstance(e, pmbl.Comparison):
         return f'Cmp({show(e.left)}{e.operator}{show(e.right)})'
     if isinstance(e, pmbl.LogicalNot):
@@ -175,6 +180,67 @@ def arith_trees(leaves, max_depth=2, binops=None, unops=None, exp_leaves=None):
         trees.append(sym.Sum((l0, neg(t), l1)))
         trees.append(sym.Product((-1, t, l1)))
     return trees
+
+
+PYOPS = {
+    'add': lambda l, r: l + r,
+    'sub': lambda l, r: l - r,
+    'mul': lambda l, r: l * r,
+    'div': lambda l, r: l / r,
+    'pow': lambda l, r: l ** r,
+}
+
+
+def pyop_trees(leaves, exp_leaf=None):
+    """Trees built with Python's operators on Loki symbols (nodes of pymbolic's own classes, which the stringifier
+    and the backends must print just as faithfully), pure and mixed with Loki's node classes, depth <= 2:
+    every operator pair in every slot, inner node python-built / outer Loki-built and vice versa."""
+    exp_leaf = exp_leaf or sym.IntLiteral(2)
+    l1p, l1s = [], []
+    for op in PLAIN:
+        for a, b in itertools.product(leaves, leaves):
+            if op == 'pow':
+                b = exp_leaf
+            l1p.append(PYOPS[op](a, b))
+            l1s.append(ARITH[op](a, b))
+    l1p += [-a for a in leaves]
+    l1s += [neg(a) for a in leaves]
+    out = list(l1p)
+    lf = leaves[-1]
+    for t in l1p + l1s:
+        native = type(t).__module__.startswith('pymbolic')
+        for op in PLAIN:
+            r = exp_leaf if op == 'pow' else lf
+            out.append(PYOPS[op](t, r))
+            out.append(PYOPS[op](lf, t))
+            if native:
+                out.append(ARITH[op](t, r))
+                out.append(ARITH[op](lf, t))
+        out.append(-t)
+        if native:
+            out.append(neg(t))
+    for t1, t2 in itertools.product(l1p[::4], l1p[1::5]):
+        for op in ('add', 'sub', 'mul', 'div'):
+            out.append(PYOPS[op](t1, t2))
+    return out
+
+
+def power_towers(leaves):
+    """Powers of powers with VARIABLE exponents -- (a**b)**c and a**(b**c) agree for many literal exponents
+    ((a**2)**2 == a**(2**2)), so the literal-exponent members of the family cannot tell the two groupings apart --
+    for every pairing of the three ways a Power node comes into being (Loki class, ParenthesisedPow, Python ``**``)."""
+    a, b, c = leaves[:3]
+    mk = [sym.Power, ops.ParenthesisedPow, lambda x, y: x ** y]
+    out = []
+    for inner, outer in itertools.product(mk, mk):
+        out.append(outer(inner(a, b), c))
+        out.append(outer(a, inner(b, c)))
+        out.append(outer(inner(a, b), sym.IntLiteral(2)))
+        out.append(outer(inner(a, sym.IntLiteral(2)), c))
+        out.append(outer(sym.IntLiteral(2), inner(b, c)))
+        out.append(outer(neg(inner(a, b)), c))
+        out.append(outer(-inner(a, b), c))
+    return out
 
 
 def logic_trees(arith):
